@@ -52,6 +52,9 @@ var props = map[string]propCfg{
 	"C14": {quick: 40000, thorough: 4000000, level: "exploration", stallS: 120, engine: "E3 map-iteration-order seam (in-process)",
 		components: "real: every statistic of align.Alignment / SeqBag / Sequence / CountProfile named by the property plus the operations that inherit the majority character (MaskUnique, MaskOccurences, Mask with MAJ, RemoveMajorityCharacterSites); environment: verifrt.Keys behind every `range` over a map (spliced by seamgen, order = PRNG keyed on map seed, site and call count); stubs: none",
 		assumptions: []string{"every map iteration of goalign goes through the seam: seamgen rewrites each range statement whose operand has map type and reports the count in coverage.seams", "floating sums are compared to 1e-12 relative: the statement's 'same answer' is not read as the last bit of a re-associated sum", "the naive definitions are evaluated on the simulated runs but owe nothing to the simulation; where the documentation is ambiguous (N/X in variable and informative sites, lower case in entropy) both readings are accepted or the clause is skipped"}},
+	"C10": {quick: 60000, thorough: 6000000, level: "exploration", stallS: 120, engine: "E3 seeded replay of the product's random stream under different map orders and clocks (in-process)",
+		components: "real: the 12 randomised operations of align.Alignment / SeqBag on top of the global math/rand stream seeded through rand.Seed as cmd/root.go does; environment: map-order and clock seams spliced by seamgen; stubs: none",
+		assumptions: []string{"the harness module sets godebug randseednop=0 so that rand.Seed seeds the global stream as it does in the shipped binary (built from a go 1.21 module)", "support claims: 400 product seeds per run, every required outcome has probability >= 1/6 per execution on correct code, so a missing outcome has probability below 1e-30 (union bound over at most 25 outcomes)", "fractions are dyadic and lengths multiples of 4 so that floor(frac*L) is the same in real and floating-point arithmetic"}},
 	"C03": {quick: 2000000, thorough: 150000000, level: "fault_enumeration", stallS: 60, vlimitKB: 8 << 20, acceptExitDeath: true, engine: "E2 simulated stream with fault injection",
 		components: "real: the 6 lexers and 7 parsers (fasta, phylip strict/relaxed incl. ParseMultiple, nexus, clustal, stockholm, partition), utils.ParseAlignmentAuto, utils.ParseMultiAlignmentsAuto and its parser goroutine, bufio; environment: simFile (io.Reader + io.Closer: fragmentation, empty reads, EOF style, read errors, post-EOF read budget), os.Exit seam; stubs: none",
 		assumptions: []string{"a parser that asks the stream for more data 10000 times after the end was reported is looping (the budget is far above what bufio and the lexers need: they stop at the first EOF token)", "an out-of-memory death of a worker under an 8 GiB address-space limit counts as a crash caused by the input", "seeded search samples the fault space; only the stated sweeps (every prefix / every structural byte of the corpus files) are exhaustive"}},
